@@ -302,7 +302,7 @@ func c07Run(rec *vcommon.Rec, sc *c07Scenario) {
 		vmu.Unlock()
 		atomic.StoreInt32(&stop, 1)
 	}
-	isolated := sc.MaxBurst <= 3
+	isolated := sc.MaxBurst <= 1
 
 	writer := func(d *c07Dir, w io.Writer, frag int, tag string) {
 		defer atomic.StoreInt32(&d.done, 1)
@@ -542,7 +542,13 @@ func c07Scenarios(rec *vcommon.Rec) []*c07Scenario {
 			sc.Name += fmt.Sprintf("-%s-%s-%d-x%d", sc.HitDir, sc.HitFate, sc.HitSeq, sc.HitTimes)
 		}
 		if sc.MaxBurst == 0 {
-			sc.MaxBurst = 3
+			// "isolated" losses: a lost exchange is always followed by a delivered one. (The code happens to
+			// absorb four consecutive losses; the statement only promises isolated ones, so only those are
+			// required not to surface as Write errors.)
+			sc.MaxBurst = 1
+			if sc.Script == "exact" {
+				sc.MaxBurst = sc.HitTimes
+			}
 		}
 		if sc.WriteMode == "" {
 			sc.WriteMode = "frag"
